@@ -554,9 +554,57 @@ func (e *Exec) sortFunc(x *ssa.Call) {
 	s := e.g.sortOf(arg.Type())
 	nv := e.havoc("sorted", s, false)
 	e.assume(implies(e.reach[e.curBlock], fmt.Sprintf("(and (= (len_%s %s) (len_%s %s)) (= (off_%s %s) 0) (= (nil_%s %s) (nil_%s %s)))", s, nv, s, old, s, nv, s, nv, s, old)))
-	e.vals[arg] = val{t: nv}
+	if e.root().rebinds == nil {
+		e.root().rebinds = map[ssa.Value][]rebind{}
+	}
+	e.root().rebinds[arg] = append(e.root().rebinds[arg], rebind{block: e.curBlock, v: val{t: nv}})
+	k := len(e.root().sorts)
 	e.root().sorts = append(e.root().sorts, sortEvent{before: old, after: nv, cmp: x.Call.Args[1], reach: e.reach[e.curBlock], sort_: s})
 	e.setVal(x, val{})
+
+	// ASSUMED library contract of slices.SortFunc (listed in the trusted base): the result is a permutation of the
+	// input (sortperm<k> is the permutation: after[i] = before[sortperm(i)], injective on [0,n)) ...
+	perm := fmt.Sprintf("sortperm%d", k)
+	if !e.g.funSeen[perm] {
+		e.g.funSeen[perm] = true
+		e.g.declare(fmt.Sprintf("(declare-fun %s (Int) Int)", perm))
+	}
+	n := fmt.Sprintf("(len_%s %s)", s, old)
+	at := func(sl Term, i string) Term {
+		return fmt.Sprintf("(select (arr_%s %s) (+ (off_%s %s) %s))", s, sl, s, sl, i)
+	}
+	r := e.reach[e.curBlock]
+	e.assume(implies(r, fmt.Sprintf("(forall ((i Int)) (! (=> (and (<= 0 i) (< i %s)) (and (<= 0 (%s i)) (< (%s i) %s) (= %s %s))) :pattern ((%s i))))", n, perm, perm, n, at(nv, "i"), at(old, "("+perm+" i)"), perm)))
+	e.assume(implies(r, fmt.Sprintf("(forall ((i Int) (j Int)) (! (=> (and (<= 0 i) (< i %s) (<= 0 j) (< j %s) (= (%s i) (%s j))) (= i j)) :pattern ((%s i) (%s j))))", n, n, perm, perm, perm, perm)))
+	e.g.libs["slices.SortFunc (result is a permutation of the input, non-decreasing under the comparison; the comparison must be a total preorder: C01)"] = true
+	// ... and sorted: for i < j the comparison does not put after[i] above after[j].  The comparison is recognised when it is
+	// the method Compare of the element type (method value or thunk); other comparison functions get no order fact.
+	elem := arg.Type().Underlying().(*types.Slice).Elem()
+	if cmp := e.sortCompare(x.Call.Args[1], elem); cmp != nil {
+		e.assume(implies(r, fmt.Sprintf("(forall ((i Int) (j Int)) (! (=> (and (<= 0 i) (< i j) (< j %s)) (<= %s 0)) :pattern ((%s i) (%s j))))", n, cmp(at(nv, "i"), at(nv, "j")), perm, perm)))
+	}
+}
+
+// sortCompare returns the term builder for cmp(a, b) when cmp is the Compare method of the element type.
+func (e *Exec) sortCompare(cmp ssa.Value, elem types.Type) func(a, b Term) Term {
+	f, ok := cmp.(*ssa.Function)
+	if mc, isClosure := cmp.(*ssa.MakeClosure); isClosure && !ok {
+		f, ok = mc.Fn.(*ssa.Function)
+	}
+	if !ok || !strings.HasSuffix(strings.TrimSuffix(f.Name(), "$thunk"), "Compare") && !strings.Contains(f.Name(), "Compare$") {
+		return nil
+	}
+	es := e.g.sortOf(elem)
+	if _, isTP := elem.(*types.TypeParam); isTP || types.IsInterface(elem) {
+		name := fmt.Sprintf("M_%s_Compare", sanitize(es))
+		if !e.g.funSeen[name] {
+			e.g.funSeen[name] = true
+			e.g.declare(fmt.Sprintf("(declare-fun %s (%s %s) Int)", name, es, es))
+			e.g.ifaceAxioms(name, "Compare", 0, []string{es, es}, "Int")
+		}
+		return func(a, b Term) Term { return "(" + name + " " + a + " " + b + ")" }
+	}
+	return nil
 }
 
 type sortEvent struct {
